@@ -13,6 +13,10 @@ RULE = ("seeded value-editing histories (constructor, values=, dtype=, append/ex
         "syntax); typed/normal-form/refusal monitors after every op. distinct = distinct "
         "(op, labels, outcome class, dtype, value type vector) tuples")
 COMPONENTS = sessioncheck.COMPONENTS
+TECHNIQUE = 'SESSION: seeded search over value-editing histories with a per-dtype input shape table; typed/normal-form/refusal monitors after every op'
+LEVEL_TEXT = 'Seeded exploration of value-editing histories: every dtype, inputs from a shape table (native, text form, near miss, empty, mixed, bracketed, tuple syntax), all value operations with strict on and off; after every operation every stored value is checked against the Python type of the dtype and for normal form, refusals must be ValueError and leave values and dtype untouched.'
+LEVEL_NOTE = "The simulated clock makes the 'empty text means now' conversion deterministic; NaN and dtype aliases ('INT', 'str') are not generated; a dtype change to an n-tuple type may expand one bracketed string into several tuples (judged only for loss)."
+DESIGN_REF = 'DESIGN.md 4 (C05)'
 ASSUMPTIONS = ["dtype names: canonical names and DType members only (aliases like 'INT'/'str' are not "
                "settled by the property)", "NaN is not generated (nan != nan)",
                "simulated clock: 'empty text means now' is deterministic"]
